@@ -1,12 +1,12 @@
 CONSTANTS Types = {"lines", "text", "binary"}
  Bufs = {0, 2, 4}
- Modes = {"dflt", "ignx"}
+ Modes = {"dflt", "ign", "ignx"}
  Scopes = {"req", "bridge"}
  MaxM = 1
  MaxW = 2
- MaxOps = 3
- Rich = FALSE
- WithStop = FALSE
+ MaxOps = 4
+ Rich = TRUE
+ WithStop = TRUE
  FixKill = TRUE
  FixTextBuf = TRUE
 SPECIFICATION SpecSync
